@@ -1081,6 +1081,10 @@ pub fn scen_proof(m: &Model, setup: &Setup, kind: u8, opt: Option<&OptSpec>, dir
     options.proof_log = ProofLog::cp(&path, Format::Text, kind >= 1, kind >= 2).expect("proof file");
     let solver = Solver::with_options(options);
     out.push(format!("model {}", m.emit()));
+    let n_defs = crate::config::LIT_DEFS.with(|d| d.borrow().len());
+    if n_defs > 0 {
+        out.push(format!("litdefs {}", n_defs));
+    }
     let mut built = build(solver, m, true, true, setup.style_seed);
     let mut concluded = false;
     let mut obj_desc = "none".to_string();
@@ -1088,6 +1092,9 @@ pub fn scen_proof(m: &Model, setup: &Setup, kind: u8, opt: Option<&OptSpec>, dir
         // a post failed: the solver is infeasible; the (immediate) Unsatisfiable answer of `satisfy`
         // is what concludes the proof, exactly as the command-line front-ends do
         out.push(format!("model {}", Model { vars: m.vars.clone(), cons: m.cons[..=built.failed_at.unwrap()].to_vec() }.emit()));
+        if n_defs > 0 {
+            out.push(format!("litdefs {}", n_defs.min(built.failed_at.unwrap() + 1)));
+        }
         out.meta("posterr");
         let mut brancher = make_brancher(&setup.bspec, &built.solver, &built.vars.ids);
         let mut term = StopAt::never();
